@@ -10,7 +10,7 @@ for d in sorted(os.listdir(root), key=lambda s: (s.split("-")[0], s)):
     m = json.load(open(mf))
     det = m.get("detected_by", {})
     by = [p for p, v in det.items() if v]
-    rnd = {"": 1, "b": 2, "c": 3, "d": 4, "e": 5, "f": 6, "g": 7}.get(re.sub(r"^C\d+-\d+", "", d), 1)
+    rnd = {"": 1, "b": 2, "c": 3, "d": 4, "e": 5, "f": 6, "g": 7, "h": 8, "i": 9}.get(re.sub(r"^C\d+-\d+", "", d), 1)
     summ = (m.get("summary") or "").replace("|", "/").replace("\n", " ")
     if len(summ) > 230:
         summ = summ[:227] + "..."
